@@ -34,7 +34,7 @@ def run():
             v.fail("tokenize", x)
     out2 = os.path.join(sub("out"), "fpm.ndjson")
     rc, txt, _ = go_overlay_test("stringclassifier/searchset", ["common/util_test.go", "searchset/fpm_driver_test.go"], "^TestVerifFPMTrace$",
-                                 env={"VERIF_OUT": out2, "VERIF_SEED": str(vlib.SEED), "VERIF_MAXLEN": "7" if th else "6", "VERIF_LONG": "3000" if th else "300"}, timeout=2400)
+                                 env={"VERIF_OUT": out2, "VERIF_SEED": str(vlib.SEED), "VERIF_MAXLEN": "7" if th else "6", "VERIF_LONG": "3000" if th else "300", "VERIF_MAXSRC": "12" if th else "10", "VERIF_MAXTGT": "6" if th else "5"}, timeout=2400)
     recs = read_ndjson(out2)
     if vlib.build_failed(txt) or not recs:
         raise vlib.Inconclusive("fpm driver failed:\n" + txt[-3000:])
@@ -42,6 +42,6 @@ def run():
     acc.nontrivial += sum(1 for x in lines if x.get("cands"))
     acc.samples += [{k: x[k] for k in ("src", "tgt", "cands", "bytes")} for x in lines if len(x.get("cands", [])) > 1][:2]
     rc = v.finish()
-    vlib.write_evidence(PID, acc.coverage("M/G: every string <= MaxLen over 8 byte-width classes (ASCII / multi-byte space, punctuation, letters of 1, 2, 4 bytes, invalid byte), two concretisations; T: every source (>= 3 tokens) x target pair over the vocabulary {a, b} up to the stated length (highly repetitive) and seeded long noisy copies; non-trivial = strings with >= 2 tokens / pairs with at least one candidate", exhaustive=True),
+    vlib.write_evidence(PID, acc.coverage("M/G: every string <= MaxLen over 8 byte-width classes (ASCII / multi-byte space, punctuation, letters of 1, 2, 4 bytes, invalid byte), two concretisations; T: every source (>= 3 tokens) x target pair over the vocabulary {a, b} up to the stated length, every longer source (<= 10, thorough 12 tokens) x every target of 3..5 (6) tokens over the same two words (highly repetitive), and seeded long noisy copies; non-trivial = strings with >= 2 tokens / pairs with at least one candidate", exhaustive=True),
         ["the range heuristics of searchset (untangle / split / merge / coalesce) are checked against their contract, not transcribed"], time.time() - t0, len(v.violations))
     return rc
